@@ -19,6 +19,9 @@ func Walk(node *Node, visitor Visitor) {
 }
 
 func (w *walker) walk(node *Node) {
+	if *node == nil {
+		return // a visitor removed this child; the type checker reports it
+	}
 	w.visitor.Enter(node)
 
 	switch n := (*node).(type) {
